@@ -151,6 +151,93 @@ def compare_fd(pp, torch, fn, inputs, cot, tol=2e-5):
     return None
 
 
+def mp_ad(g, x):
+    """ad matrix of an algebra element at 60 digits (so3 3x3, se3 6x6, rxso3 4x4, sim3 7x7), as in sim3_adj etc."""
+    import mpmath as mp
+    mp.mp.dps = 60
+    X = [mp.mpf(Fraction(v).numerator) / mp.mpf(Fraction(v).denominator) for v in x]
+    sk = lambda v: [[0, -v[2], v[1]], [v[2], 0, -v[0]], [-v[1], v[0], 0]]
+    k = ADIM[g]
+    A = mp.zeros(k, k)
+    if g == 'SO3':
+        P = sk(X)
+        for i in range(3):
+            for j in range(3):
+                A[i, j] = P[i][j]
+    elif g == 'RxSO3':
+        P = sk(X[:3])
+        for i in range(3):
+            for j in range(3):
+                A[i, j] = P[i][j]
+    else:
+        tau, phi = X[:3], X[3:6]
+        sg = X[6] if g == 'Sim3' else 0
+        P, T = sk(phi), sk(tau)
+        for i in range(3):
+            for j in range(3):
+                A[i, j] = P[i][j] + (sg if i == j else 0)
+                A[i, j + 3] = T[i][j]
+                A[i + 3, j + 3] = P[i][j]
+            if g == 'Sim3':
+                A[i, 6] = -tau[i]
+    return A
+
+
+def mp_Jl(g, x):
+    """left Jacobian sum_k ad^k/(k+1)! at 60 digits"""
+    import mpmath as mp
+    A = mp_ad(g, x)
+    J = mp.eye(A.rows)
+    term = mp.eye(A.rows)
+    for k in range(1, 80):
+        term = term * A / (k + 1)
+        J += term
+    return J, A
+
+
+def angle_regime(g, x):
+    rot = {'SO3': x[0:3], 'SE3': x[3:6], 'RxSO3': x[0:3], 'Sim3': x[3:6]}[g]
+    th = math.sqrt(sum(a * a for a in rot))
+    eps = 2.0 ** -52
+    return 'theta<=eps' if th <= eps else ('eps<theta<=1e-7' if th <= 1e-7 else 'theta>1e-7')
+
+
+def confirm_explog(pp, torch, c):
+    """Exp / Log backward against the series of ad at 60 digits (independent of the Coq model)"""
+    import mpmath as mp
+    g, op = c['g'], c['op']
+    dt = torch.float64
+    if op == 'Exp':
+        X = alg(pp, torch, g, c['x'])
+        out = X.Exp().tensor()
+        saved = c['x']
+    else:
+        X = grp(pp, torch, g, c['x'])
+        out = X.Log().tensor()
+        saved = [float(v) for v in out.tolist()]
+    gx, = torch.autograd.grad(out, [X], torch.tensor(c['gz'], dtype=dt))
+    gx = [float(v) for v in gx.tolist()]
+    if any(not math.isfinite(v) for v in gx):
+        return 'gradient contains NaN/Inf: %s' % gx
+    J, A = mp_Jl(g, saved)
+    k = ADIM[g]
+    M = J if op == 'Exp' else J ** -1
+    gz = [mp.mpf(v) for v in c['gz'][:k]]
+    ref = [sum(gz[i] * M[i, j] for i in range(k)) for j in range(k)]
+    scale = max(1.0, max(abs(v) for v in gx))
+    tol = 0.99e-7 * scale
+    if g == 'Sim3':
+        na = float(mp.norm(A, 'inf'))
+        tol += 4.0 * na ** 6 * scale          # documented truncation of the sim3 series
+    err = max(abs(mp.mpf(gx[j]) - ref[j]) for j in range(k))
+    if op == 'Log' and abs(gx[k]) != 0.0:
+        return 'the extra slot of the gradient is %r, not 0' % gx[k]
+    if err > tol:
+        return '%s %s backward at %s: gradient differs from cotangent @ %s by %.3g (tolerance %.3g); autograd %s' % (
+            g, op, c['x'], 'Jl' if op == 'Exp' else 'Jl^-1', float(err), tol, [round(v, 9) for v in gx])
+    return None
+
+
 def single_op_fn(pp, op):
     return {'Mul': lambda X, Y: X @ Y, 'Inv': lambda X: X.Inv(), 'Act': lambda X, p: X.Act(p), 'Act4': lambda X, p: X.Act(p),
             'Adj': lambda X, a: X.Adj(a), 'AdjT': lambda X, a: X.AdjT(a), 'Exp': lambda x: x.Exp(), 'Log': lambda X: X.Log(),
@@ -250,7 +337,7 @@ def run(ctx):
             ctx.mismatch('poly:%s:%s' % (meta[i]['g'], meta[i]['op']), meta[i])
     # ---------------------------------------------------------------- Exp / Log backward, enclosure route
     ecases, emeta = [], []
-    ne = ctx.scale(14, 400)
+    ne = ctx.scale(10, 400)
     for g in GROUPS:
         for op in ('Exp', 'Log'):
             for t in range(ne if g in ('SO3', 'SE3') else max(6, ne // 2)):
@@ -298,17 +385,24 @@ def run(ctx):
                 fnm = 'exp_bwd' if op == 'Exp' else 'log_bwd'
                 ecases.append(dict(idx=i, expr='%s (1/4503599627370496) %d %s %s' % (fnm, GID[g], rlist(saved), rlist(gz)),
                                    comps=[(j, gx[j], tol) for j in range(len(gx))]))
-    r = run_enclosure('C04', 'Model.LieGroup Model.LieExp Model.LieLog Model.LieJac', ecases, prec=160, per_file=ctx.scale(4, 20), timeout_goal=300, tag='jac')
+    r = run_enclosure('C04', 'Model.LieGroup Model.LieExp Model.LieLog Model.LieJac', ecases, prec=160, per_file=ctx.scale(3, 20), timeout_goal=600, tag='jac')
     for name, out in r['broken']:
         ctx.obligation_broken('correspondence-file:' + name, out)
     ctx.notes.append('Exp/Log backward enclosure: %d within tolerance, %d outside, %d undecided' % (len(r['ok']), len(set(i for i, _ in r['bad'])), len(r['undecided'])))
     if len(r['undecided']) > max(3, len(ecases) // 10):
         ctx.obligation_broken('enclosure-undecided', '%d of %d Exp/Log backward cases undecided, e.g. %s' % (len(r['undecided']), len(ecases), [emeta[i] for i in r['undecided'][:2]]))
     for i in sorted(set(i for i, _ in r['bad'])):
-        ctx.mismatch('explog:%s:%s' % (emeta[i]['g'], emeta[i]['op']), emeta[i])
+        m = emeta[i]
+        mm = dict(family='explog:%s:%s' % (m['g'], m['op']), case=m, detail='')
+        ctx.mismatches.append(mm)
+        why = confirm_explog(pp, torch, m)
+        if why:
+            mm['explained'] = True
+            saved = m['x'] if m['op'] == 'Exp' else [float(v) for v in grp(pp, torch, m['g'], m['x'], rg=False).Log().tensor().tolist()]
+            ctx.violation('grad-accuracy:%s:%s:%s' % (m['g'], m['op'], angle_regime(m['g'], saved)), why, m)
     ctx.traces = len(meta) + len(r['ok'])
     # ---------------------------------------------------------------- search: finite-difference oracle per (group, op) family
-    fams = sorted({(m['case']['g'], m['case']['op']) for m in ctx.mismatches})
+    fams = sorted({(m['case']['g'], m['case']['op']) for m in ctx.mismatches if not m.get('explained')})
     for (g, op) in fams:
         found = None
         for point in ('generic', 'generic', 'generic', 'identity', 'tiny'):
@@ -320,6 +414,11 @@ def run(ctx):
                 if (m['case']['g'], m['case']['op']) == (g, op):
                     m['explained'] = True
             ctx.violation('grad-wrong:%s:%s' % (g, op), found['what'], found)
+    for key in list(ctx.known):
+        if key in ctx.known_hit or key not in KNOWN_WITNESS:
+            continue
+        if confirm_explog(pp, torch, KNOWN_WITNESS[key]):
+            ctx.known_hit[key] = 'witness still fails'
     # ---------------------------------------------------------------- known findings: replay their family on every run
     for key in list(ctx.known):
         if key in ctx.known_hit or not key.startswith('grad-wrong:'):
@@ -345,6 +444,15 @@ def run(ctx):
 
 def shard(items, n):
     return [items[k:k + n] for k in range(0, len(items), n)]
+
+
+# recorded witnesses of listed findings (float cancellation in calcQ's closed-form coefficients for tiny angles)
+KNOWN_WITNESS = {
+    'grad-accuracy:SE3:Exp:eps<theta<=1e-7': dict(kind='explog', g='SE3', op='Exp',
+        x=[1.1, 0.2, -1.2, 3.030457633656632e-14, -5.050762722761053e-14, 8.081220356417687e-14], gz=[0.3, -0.7, 0.1, 0.4, 0.2, -0.6, 0.5]),
+    'grad-accuracy:SE3:Log:eps<theta<=1e-7': dict(kind='explog', g='SE3', op='Log',
+        x=[1.1, 0.2, -1.2, 1.515228816828316e-14, -2.5253813613805266e-14, 4.0406101782088436e-14, 1.0], gz=[0.3, -0.7, 0.1, 0.4, 0.2, -0.6]),
+}
 
 
 def composite(ctx, pp, torch):
@@ -428,7 +536,9 @@ def replay(ctx, c):
         return compare_fd(pp, torch, single_op_fn(pp, op), new, torch.tensor(c['cot'], dtype=torch.float64))
     if c.get('kind') == 'tree':
         return 're-run the check: tree replays are regenerated from the seed'
-    if c.get('kind') in ('poly', 'explog'):
+    if c.get('kind') == 'explog':
+        return confirm_explog(pp, torch, c)
+    if c.get('kind') in ('poly',):
         rng = random.Random(1)
         for point in ('generic', 'generic', 'identity'):
             f = fd_single(pp, torch, rng, c['g'], c['op'], point)
